@@ -218,6 +218,9 @@ pub struct Cfg {
     pub seed: u64,
     pub only_case: Option<u64>,
     pub cases: Option<u64>,
+    /// multiplier of the quick-tier case counts (`--scale K`): ./check raises it when /repo's sources differ from the
+    /// fingerprints recorded in checklib/fingerprints.json, i.e. when the code under check has changed
+    pub scale: u64,
 }
 impl Cfg {
     pub fn thorough(&self) -> bool {
@@ -225,7 +228,7 @@ impl Cfg {
     }
     /// number of generated cases for this tier unless overridden
     pub fn n(&self, quick: u64, thorough: u64) -> u64 {
-        self.cases.unwrap_or(if self.thorough() { thorough } else { quick })
+        self.cases.unwrap_or(if self.thorough() { thorough } else { (quick * self.scale.max(1)).min(thorough.max(quick)) })
     }
     pub fn wants(&self, idx: u64) -> bool {
         self.only_case.map_or(true, |c| c == idx)
